@@ -137,3 +137,11 @@ REG["C18"] = {
                    "negative / huge / infinite times and infinite extrema; extrema strings are compared exactly with python's '{:.3}' of the independently parsed tables."),
     "level_note": _NOTE,
 }
+
+REG["C12"] = {
+    "technique": "TLC model checking of MC_C12.tla over Pool.tla (every Start/Finish/Deliver interleaving for map, imap, imap_unordered with n<=4 tasks on W<=4 workers; ScheduleFree) + imposing every emitted completion order on 13 real tool entry points (scheduled in-process pool; thorough: real worker processes with forced start/finish order, W up to 16) with byte-for-byte output comparison + PoolTrace.tla trace validation of the recorded pool usage",
+    "level_text": ("All n! completion orders for n = 1..4 tasks per pool call are enumerated by TLC and imposed on reader selections / iteration, taste, colander, combine (byfile and bybox), chef, mandoline (3-D return/array, 2-D), pestle, whip and chk2plt, "
+                   "on inputs whose tasks differ in size; files are compared as raw bytes (npz by member payload), returned values bitwise, serial modes against parallel; the recorded Submit/Start/Finish/Deliver events are validated as behaviours of Pool.tla."),
+    "level_note": _NOTE + " Histories of two cooks in one process on a cached pathos pool are outside this check.",
+    "engine": "tlc+replay+trace",
+}
